@@ -156,6 +156,7 @@ def mentions (k : Nat) : Op → Bool
   | .extend p q => p.root == k || q.root == k
   | .setSub p _ => p.root == k
   | .setCs p q _ => p.root == k || q.root == k
+  | .setKey p q _ => p.root == k || q.root == k
   | .clone j q => j == k || q.root == k
   | .copy j q => j == k || q.root == k
   | .drop j => j == k
@@ -548,6 +549,44 @@ theorem assign_cstr_spec (σ σ' : State) (t : Loc) (sl : Option Loc) (p q : Pat
     | flt _ => cases h
     | arr _ => cases h
     | obj _ => cases h
+
+/-- **assign_key_spec** — `p = k` with `const String& k = q.object().kv()[i].key` (commit 782f6e9), e.g. `v = (name of v's first
+property)`: an executed `const String&` assignment whose text is a property NAME held by the object `q` — possibly the
+object that `p` holds and that the assignment releases — leaves `p` readable, denoting exactly that name; the invariant holds -/
+theorem assign_key_spec (σ σ' : State) (t : Loc) (sl : Option Loc) (p q : Path) (i : Nat) (inv : Inv σ []) (hl : ValidLoc σ t)
+    (h : opBody true σ t sl (.setKey p q i) = .ok σ') :
+    ∃ id b kv, srcVal σ sl = .ok (.obj id) ∧ getB σ.heap id = .ok b ∧ b.items[i]? = some kv ∧
+      ∃ v', readLoc σ' t = .ok v' ∧ content 1 σ'.heap v' = some (.str kv.1) ∧ Inv σ' [] := by
+  have hms : ∀ x : Bytes, content 1 [] (mkString x) = some (.str x) := by
+    intro x; unfold mkString; split <;> rfl
+  simp only [opBody, assignKey] at h
+  cases hsv : srcVal σ sl with
+  | error e => rw [hsv] at h; cases h
+  | ok src =>
+    rw [hsv] at h
+    cases src with
+    | obj id =>
+      simp only [] at h
+      cases hb : getB σ.heap id with
+      | error e => rw [hb] at h; cases h
+      | ok b =>
+        rw [hb] at h
+        simp only [] at h
+        cases hi : b.items[i]? with
+        | none => rw [hi] at h; cases h
+        | some kv =>
+          rw [hi] at h
+          obtain ⟨v', h1, _, h3, h4⟩ := assign_lit_spec σ σ' t sl p (.str kv.1) inv hl h
+          exact ⟨id, b, kv, rfl, hb, hi, v', h1, by rw [h3]; exact hms _, h4⟩
+    | str _ => cases h
+    | sstr _ => cases h
+    | none => cases h
+    | null => cases h
+    | bool _ => cases h
+    | int _ => cases h
+    | num _ => cases h
+    | flt _ => cases h
+    | arr _ => cases h
 
 /-- the typed overload `v == 16777216.0f` for `v = 16777217` (commit cda9080): the driver evaluates every typed numeric
 comparison as `numOf v == some d` (exact values), and these two differ -/
